@@ -6,6 +6,14 @@ LEVEL = 'exploration'
 
 
 def run(rep, tier, seed):
+    # structural part (AST engine): every function under contract is direction-parametric -- it is executed symbolically with ONE generic
+    # direction index; a non-trivial batch subscript (x[0,0], x[d,1], ...) or an unmodelled whole-array construct makes it leave the subset
+    from lib import deductive
+    from contracts import registry
+    tasks = [(k, cfg) for k, con in registry.ALL.items() for cfg in con.cfgs]
+    for r in deductive.dp_scan(tasks):
+        rep.add_structural('DP/%s[%s]' % (r['function'], r['cfg']), r['verdict'] if r['verdict'] == 'holds' else 'skipped', r['detail'], backend='AST (vc/engine.py)')
+        if r['verdict'] != 'holds': rep.undecide('DP/%s[%s]' % (r['function'], r['cfg']), r['detail'])
     n, d, samples = op_part(rep, 'C11', tier, seed)
     rep.add_bounded('per-operation direction independence', n, d, 'every op: result for P directions with different base points vs. each direction evaluated alone', samples, 'P<=3, D<=6')
     rng = random.Random(6200 + seed); m = 0; k = set(); s2 = []
@@ -20,5 +28,5 @@ def run(rep, tier, seed):
         if len(s3) < 2: s3.append(case)
         if fail: rep.violation('factorization directions:%s' % case['factorization'], case.get('mode', ''), '%s: %s' % (case, fail), {'kind': 'factorization', 'case': case, 'failure': fail})
     rep.add_bounded('factorizations per direction (forward and reverse)', m3, len(k3), 'qr, qr_full, cholesky, lu, eigh, svd, inv, det, logdet on P directions with different base matrices (for eigh the last direction has an exactly repeated eigenvalue): forward outputs and the reverse-sweep adjoint through the traced factorization equal the single-direction runs', s3, 'sizes 2-3, D<=3, P<=3')
-    rep.extra['explanation'] = 'direction-parametricity of the kernels is what licenses the one-batch-cell abstraction of the C01/C02 proofs (checked by the engine: any non-trivial batch subscript makes a kernel leave the subset); the per-direction claim for whole programs is bounded'
+    rep.extra['explanation'] = 'direction-parametricity of the kernels is what licenses the one-batch-cell abstraction of the C01/C02 proofs (checked by the engine: any non-trivial batch subscript makes a kernel leave the subset); the per-direction claim for whole programs is bounded; assumption A3b: operands of equal rank (NumPy broadcasting of the direction axis against a lower-rank operand is outside the model and covered by the bounded operator matrix)'
     return 0
